@@ -252,5 +252,101 @@ Definition encodes_hmtx (glyf : list glyph) (h : list (Z * Z) * list Z) (bytes :
             ++ (if Z.land flags 2 =? 0 then flat_map wr_i16 (snd h) else []).
 
 (* ------------------------------------------------------------------ 4.1 table directory *)
-(* the 63 known tags of section 4.1, as text *)
-Definition tag_of_string (a b c d : Z) : Z := ((a * 256 + b) * 256 + c) * 256 + d.
+From Coq Require String Ascii.
+Import String.StringSyntax.
+Delimit Scope string_scope with string.
+
+Fixpoint tag_of_chars (s : String.string) (acc : Z) : Z :=
+  match s with
+  | String.EmptyString => acc
+  | String.String c r => tag_of_chars r (acc * 256 + Z.of_nat (Ascii.nat_of_ascii c))
+  end.
+Definition tag_of_str (s : String.string) : Z := tag_of_chars s 0.
+
+(* "Known Table Tags" of section 4.1, index 0..62, transcribed from the specification *)
+Definition spec_known_tags : list Z := map tag_of_str [
+  "cmap"; "head"; "hhea"; "hmtx"; "maxp"; "name"; "OS/2"; "post"; "cvt "; "fpgm"; "glyf"; "loca";
+  "prep"; "CFF "; "VORG"; "EBDT"; "EBLC"; "gasp"; "hdmx"; "kern"; "LTSH"; "PCLT"; "VDMX"; "vhea";
+  "vmtx"; "BASE"; "GDEF"; "GPOS"; "GSUB"; "EBSC"; "JSTF"; "MATH"; "CBDT"; "CBLC"; "COLR"; "CPAL";
+  "SVG "; "sbix"; "acnt"; "avar"; "bdat"; "bloc"; "bsln"; "cvar"; "fdsc"; "feat"; "fmtx"; "fvar";
+  "gvar"; "hsty"; "just"; "lcar"; "mort"; "morx"; "opbd"; "prop"; "trak"; "Zapf"; "Silf"; "Glat";
+  "Gloc"; "Feat"; "Sill"]%string.
+
+Definition spec_tag_glyf : Z := tag_of_str "glyf"%string.
+Definition spec_tag_loca : Z := tag_of_str "loca"%string.
+Definition spec_tag_hmtx : Z := tag_of_str "hmtx"%string.
+
+(* a table as the directory describes it: tag, length of the original table, and the bytes stored
+   in the (decompressed) data block; `t_transformed` = the entry carries a transformLength *)
+Record tabspec := { t_tag : Z; t_orig_length : Z; t_transformed : bool; t_data : list Z }.
+
+(* the transformation version an entry must carry (bits 6-7 of the flags byte): glyf and loca are
+   transformed with version 0 and stored as is with version 3; hmtx is transformed with version 1;
+   every other table (and an untransformed hmtx) has version 0 *)
+Definition spec_version (t : tabspec) : Z :=
+  if (t_tag t =? spec_tag_glyf) || (t_tag t =? spec_tag_loca) then (if t_transformed t then 0 else 3)
+  else if t_transformed t then 1 else 0.
+
+Definition tabspec_ok (t : tabspec) : Prop :=
+  0 <= t_tag t < 4294967296 /\ 0 <= t_orig_length t < 4294967296 /\ len (t_data t) < 4294967296 /\
+  (* only glyf, loca and hmtx have a transform *)
+  (t_transformed t = true ->
+     t_tag t = spec_tag_glyf \/ t_tag t = spec_tag_loca \/ t_tag t = spec_tag_hmtx) /\
+  (* an untransformed table is stored as is *)
+  (t_transformed t = false -> t_orig_length t = len (t_data t)).
+
+(* the tag is written as its index in the known-tag table, or as 63 followed by the four bytes *)
+Inductive encodes_tag : Z -> Z -> list Z -> Prop :=
+| ET_known : forall idx tag, 0 <= idx < 63 -> nth_error spec_known_tags (Z.to_nat idx) = Some tag ->
+    encodes_tag tag idx []
+| ET_arbitrary : forall tag, encodes_tag tag 63 (wr_u32 tag).
+
+Definition encodes_dir_entry (t : tabspec) (bytes : list Z) : Prop :=
+  exists idx tagbytes,
+    encodes_tag (t_tag t) idx tagbytes /\
+    bytes = [spec_version t * 64 + idx] ++ tagbytes ++ enc_base128 (t_orig_length t)
+            ++ (if t_transformed t then enc_base128 (len (t_data t)) else []).
+
+(* what the decoder must produce: offsets are the running sum of the stored lengths *)
+Fixpoint spec_entries (offset : Z) (ts : list tabspec) : list dir_entry :=
+  match ts with
+  | [] => []
+  | t :: r =>
+      {| e_tag := t_tag t; e_offset := offset; e_orig_length := t_orig_length t;
+         e_transform_length := if t_transformed t then Some (len (t_data t)) else None |}
+      :: spec_entries (offset + len (t_data t)) r
+  end.
+
+(* collection directory (section 4.2): version, numFonts, then per font numTables, flavor and the
+   directory indices, the counts and indices as 255UInt16 *)
+Inductive encodes_font_entry : list Z -> list Z -> Prop :=
+| EFE : forall idx nenc flavor iencs,
+    encodes_255 nenc (len idx) -> 0 <= flavor < 4294967296 -> Forall2 encodes_255 iencs idx ->
+    encodes_font_entry idx (nenc ++ wr_u32 flavor ++ concat iencs).
+Definition encodes_collection (fonts : list (list Z)) (bytes : list Z) : Prop :=
+  exists version nenc fencs,
+    0 <= version < 4294967296 /\ encodes_255 nenc (len fonts) /\
+    Forall2 encodes_font_entry fonts fencs /\
+    bytes = wr_u32 version ++ nenc ++ concat fencs.
+
+(* ------------------------------------------------------------------ 3. WOFF2 header *)
+(* the 48-byte header; only flavor and numTables steer the decoder, reserved must be 0 *)
+Record header_fields := {
+  hf_flavor : Z; hf_length : Z; hf_num_tables : Z; hf_total_sfnt_size : Z;
+  hf_total_compressed_size : Z; hf_major : Z; hf_minor : Z; hf_meta_offset : Z;
+  hf_meta_length : Z; hf_meta_orig_length : Z; hf_priv_offset : Z; hf_priv_length : Z }.
+Definition u32_ok (v : Z) : Prop := 0 <= v < 4294967296.
+Definition header_ok (h : header_fields) : Prop :=
+  u32_ok (hf_flavor h) /\ u32_ok (hf_length h) /\ u16_ok (hf_num_tables h) /\
+  u32_ok (hf_total_sfnt_size h) /\ u32_ok (hf_total_compressed_size h) /\
+  u16_ok (hf_major h) /\ u16_ok (hf_minor h) /\ u32_ok (hf_meta_offset h) /\
+  u32_ok (hf_meta_length h) /\ u32_ok (hf_meta_orig_length h) /\ u32_ok (hf_priv_offset h) /\
+  u32_ok (hf_priv_length h).
+Definition spec_magic : Z := tag_of_str "wOF2"%string.
+Definition header_bytes (h : header_fields) : list Z :=
+  wr_u32 spec_magic ++ wr_u32 (hf_flavor h) ++ wr_u32 (hf_length h)
+  ++ wr_u16 (hf_num_tables h) ++ wr_u16 0 ++ wr_u32 (hf_total_sfnt_size h)
+  ++ wr_u32 (hf_total_compressed_size h) ++ wr_u16 (hf_major h) ++ wr_u16 (hf_minor h)
+  ++ wr_u32 (hf_meta_offset h) ++ wr_u32 (hf_meta_length h) ++ wr_u32 (hf_meta_orig_length h)
+  ++ wr_u32 (hf_priv_offset h) ++ wr_u32 (hf_priv_length h).
+Definition spec_ttcf : Z := tag_of_str "ttcf"%string.
